@@ -321,9 +321,10 @@ int main(int argc, char** argv)
             // tasks are lost: helper OS threads may spin for ever and the runtime cannot be shut
             // down; everything observed so far has been printed and flushed
             std::printf("SUMMARY mode=%s policy=%s threads=%d cases=%d tasks=%ld events=%ld chains=%ld monhits=%d rc=1\n",
-                mode.c_str(), policy.c_str(), threads, id, R.total_tasks, R.total_events, R.total_chains, R.mon_hits + 1);
+                mode.c_str(), policy.c_str(), threads, id, R.total_tasks, R.total_events, R.total_chains,
+                R.mon_hits + (R.inconclusive ? 0 : 1));
             std::fflush(stdout);
-            _exit(3);
+            _exit(R.inconclusive ? 4 : 3);
         }
         c->stop_inject.store(1, std::memory_order_release);
         for (auto& th : ths) th.join();
